@@ -33,8 +33,7 @@ def regex_inventory(ctx):
                 from ..fold import ClassVal
                 if isinstance(v, ClassVal) and v.module == modname:
                     for a, av in v.attrs.items():
-                        if isinstance(av, RegexVal) and av.module in (None, modname) \
-                                and not any(o['rv'] is av for o in out):
+                        if isinstance(av, RegexVal) and not any(o['rv'] is av for o in out):
                             out.append({'name': f"{v.name}.{a}", 'full': f"{modname}.{v.name}.{a}",
                                         'rv': av, 'where': modname, 'kind': 'class'})
         # inline patterns
@@ -494,6 +493,22 @@ def none_vs_false(ctx, funcs, rule='SIB'):
                     continue
                 hit = {c.split('.')[-1] for c in _flow.prov_calls(pv)} & set(three)
                 if not hit:
+                    continue
+                # the tested name must BE such an answer (`value = str_to_value(x)`), not something
+                # computed from it (`legal = isinstance(value, bool)` is an honest two-valued test)
+                try:
+                    cfg_, rd_ = _flow.analyse(fi.node)
+                    vals = [rd_.defs[d] for d in rd_.reaching(_flow.stmt_node(cfg_, e), e.id)]
+                except Exception:
+                    vals = []
+
+                def is_answer(v, depth=0):
+                    if isinstance(v, ast.Call):
+                        return (dotted(v.func) or '').split('.')[-1] in three
+                    if isinstance(v, ast.IfExp):
+                        return is_answer(v.body, depth) or is_answer(v.orelse, depth)
+                    return False
+                if vals and not any(is_answer(v) for v in vals):
                     continue
                 n += 1
                 src = sorted(hit)[0]
@@ -1957,4 +1972,117 @@ def membership_kind_mismatch(ctx, funcs, rule='SIB'):
                       f"`{x.comparators[0].id}` only ever receives {sorted(set(added))} in {fi.qualname} - the test has the same "
                       f"outcome for every element, so the branch it guards no longer does its job (an index is recorded twice, "
                       f"or never)", key=f"{rule}|{fi.qualname}|membership-kind|{norm(x)[:40]}", where=loc(fi, x))
+    return n
+
+
+def cleanup_func(ctx):
+    """The function that plays cleanup_desc's part (strips separators and
+    trailing connector words off a description block): by its name, in
+    whatever module it lives now; after a rename, by what it does - a
+    module-level function of one parameter with a fix-point loop, a strip()
+    of separator characters and a table of connector words."""
+    def find():
+        try:
+            return ctx.repo.func('plss_parse:cleanup_desc')
+        except AnalysisError:
+            pass
+        cands = []
+        for f in ctx.repo.funcs.values():
+            if f.cls is not None or f.outer is not None or len(f.params()) != 1:
+                continue
+            has_loop = any(isinstance(x, ast.While) for x in walk_local(f.node))
+            strips = [c for c in walk_local(f.node) if isinstance(c, ast.Call) and isinstance(c.func, ast.Attribute)
+                      and c.func.attr in ('strip', 'rstrip') and c.args and isinstance(c.args[0], ast.Constant)
+                      and isinstance(c.args[0].value, str) and {',', ';'} <= set(c.args[0].value)]
+            words = [x for x in walk_local(f.node) if isinstance(x, (ast.List, ast.Tuple)) and x.elts
+                     and all(isinstance(e, ast.Constant) and isinstance(e.value, str) for e in x.elts)
+                     and {' of', ' in'} & {e.value for e in x.elts}]
+            if has_loop and strips and words:
+                cands.append(f)
+        if len(cands) == 1:
+            ctx.repo.moved_anchors['plss_parse:cleanup_desc'] = cands[0].fullname
+            return cands[0]
+        raise AnalysisError("function anchor 'plss_parse:cleanup_desc': not found by name, and no single function does its job")
+    return ctx.cache('cleanup-func', find)
+
+
+def cleanup_name(ctx):
+    try:
+        return cleanup_func(ctx).node.name
+    except AnalysisError:
+        return 'cleanup_desc'
+
+
+def char_table(ctx, fi):
+    """The character-for-character conversion a function applies to its text:
+    chained `.replace('S', '5')` calls and / or `.translate(T)` with T a
+    folded `str.maketrans(...)` table.  Returns {char: replacement or None
+    (deleted)}; characters given longer replacements are included as written."""
+    table = {}
+    for c in walk_local(fi.node):
+        if not (isinstance(c, ast.Call) and isinstance(c.func, ast.Attribute)):
+            continue
+        if c.func.attr == 'replace' and len(c.args) == 2 and all(
+                isinstance(a, ast.Constant) and isinstance(a.value, str) for a in c.args):
+            table[c.args[0].value] = c.args[1].value
+        elif c.func.attr == 'translate' and len(c.args) == 1:
+            try:
+                t = fold_in_func(ctx, fi, c.args[0])
+            except AnalysisError:
+                t = None
+            if isinstance(t, dict):
+                for k, v in t.items():
+                    kk = chr(k) if isinstance(k, int) else k
+                    vv = None if v is None else chr(v) if isinstance(v, int) else v
+                    table[kk] = vv
+    return table
+
+
+def name_tag_purity(ctx, funcs, pairs=(('ns', 'ew'), ('twp', 'rge')), rule='SIB'):
+    """Sibling functions named after one member of a pair
+    (`verify_default_ns` / `verify_default_ew`) work on constants of their own
+    member (`_LEGAL_NS`, `DefaultNSError`).  When both siblings exist and one
+    of them is pure, a reference to the OTHER member's constant inside the
+    second (`_LEGAL_NS` inside verify_default_ew) is the copy-paste slip that
+    makes it accept / reject the wrong letters."""
+    import re as _re
+
+    def toks(name):
+        return {t.lower() for t in _re.findall(r'[A-Z]+(?![a-z])|[A-Z]?[a-z]+|\d+', name.replace('_', ' '))}
+
+    def refs(fi):
+        out = []
+        for x in walk_local(fi.node):
+            if isinstance(x, ast.Attribute):
+                out.append((x.attr, x))
+            elif isinstance(x, ast.Name) and not isinstance(x.ctx, ast.Store):
+                out.append((x.id, x))
+        return out
+    byname = {f.node.name: f for f in funcs if f.cls is None or True}
+    n = 0
+    for a, b in pairs:
+        for name, fi in sorted(byname.items()):
+            t = toks(name)
+            if (a in t) == (b in t):
+                continue
+            mine, other = (a, b) if a in t else (b, a)
+            sib_name = _re.sub(rf"(?<![a-zA-Z]){mine}(?![a-z])", other, name)
+            sib = byname.get(sib_name)
+            if sib is None or sib is fi:
+                continue
+            foreign = [(r, node) for r, node in refs(fi) if other in toks(r) and mine not in toks(r) and r not in fi.params()]
+            sib_foreign = [(r, node) for r, node in refs(sib) if mine in toks(r) and other not in toks(r) and r not in sib.params()]
+            own = [r for r, _ in refs(fi) if mine in toks(r) and other not in toks(r)]
+            if not own and not foreign:
+                continue
+            n += 1
+            # judged only when the sibling is pure (it is the reference) and this one also uses its own constants
+            ctx.tri(not foreign, bool(foreign) and not sib_foreign, rule,
+                    f"{fi.qualname}: works on its own member's constants (sibling {sib.qualname})",
+                    detail_bad=f"{fi.qualname} refers to `{foreign[0][0] if foreign else ''}` - a constant of the `{other}` member - "
+                               f"while its sibling {sib.qualname} only uses `{mine if False else other}` ones: it checks / reports "
+                               f"against the wrong table (legal `{mine}` values are rejected, `{other}` ones accepted)",
+                    key=f"{rule}|{fi.qualname}|foreign-constant|{foreign[0][0] if foreign else ''}",
+                    where=loc(fi, foreign[0][1]) if foreign else None,
+                    why='both siblings mix the members; not judged')
     return n
